@@ -187,6 +187,15 @@ def repo_state():
     return {'head': git('rev-parse', 'HEAD'), 'dirty_files': [l.split(None, 1)[-1] for l in git('status', '--porcelain').splitlines() if l.strip()][:50]}
 
 
+def rules_sig(em):
+    """how many times each rewrite rule fired on this function (R0a/R0c/R11 excluded: attributes, paths, return naming)"""
+    c = {}
+    for (rule, _detail) in em.rules:
+        if rule not in ('R0a', 'R0c', 'R11'):
+            c[rule] = c.get(rule, 0) + 1
+    return c
+
+
 def probe_hits(pr):
     ptxt = pr.unit.text.split('\n')
     hit = set()
@@ -228,6 +237,7 @@ def replay_only_verus(replay_only):
 
 def check_property(pid, tier, seed, replay_only=None):
     t0 = time.time()
+    os.environ['VERIF_PID'] = pid      # gen.expand_known_findings: assert for the property a finding violates, assume elsewhere
     props = load_json(PROPS, {})
     if pid not in props:
         print('unknown or unclaimed property %s' % pid)
@@ -272,7 +282,7 @@ def check_property(pid, tier, seed, replay_only=None):
             if not ur2.gen_error and not ur2.res.fatal:
                 runs[u] = ur2
 
-    cur_loop_sig, cur_callees, cur_asserts = {}, {}, {}
+    cur_loop_sig, cur_callees, cur_asserts, cur_rules = {}, {}, {}, {}
     for u in units:
         ur = runs.get(u)
         if ur is not None and ur.unit is not None:
@@ -280,6 +290,7 @@ def check_property(pid, tier, seed, replay_only=None):
                 cur_loop_sig[(u, em.name)] = em.loop_sig
                 cur_callees[(u, em.name)] = em.callees
                 cur_asserts[(u, em.name)] = em.src_asserts
+                cur_rules[(u, em.name)] = rules_sig(em)
     functions, obligations, discharged = [], 0, 0
     failures, trusted, rules_applied, samples = [], [], {}, []
     solver_ms, verus_version, checker_cmds = 0, '', []
@@ -497,6 +508,19 @@ def check_property(pid, tier, seed, replay_only=None):
             if msg not in undecided:
                 undecided.append(msg)
             continue
+        # a rewrite rule (an idiom substitution, a loop rule, an assertion rule) that fired N times on the baselined body and fires
+        # a different number of times now: the body changed exactly where the translation into the verifier's dialect depends on
+        # its shape, so what Verus sees there may be an unmodelled construct - undecided
+        brs = bu.get('functions', {}).get(f['function'], {}).get('rules_sig')
+        crs = cur_rules.get((f['unit'], f['function']))
+        if in_base and not f.get('kani') and brs is not None and crs is not None and brs != crs:
+            diff = sorted(set(k for k in set(brs) | set(crs) if brs.get(k, 0) != crs.get(k, 0)))
+            msg = ('%s: the rewrite rules %s apply differently than on the baselined body (%s -> %s); the changed spot may no longer be '
+                   'translated faithfully, so its failed obligations decide nothing' % (f['function'], ', '.join(diff),
+                   {k: brs.get(k, 0) for k in diff}, {k: crs.get(k, 0) for k in diff}))
+            if msg not in undecided:
+                undecided.append(msg)
+            continue
         # a NEW runtime assertion (debug_assert added by the change) that cannot be proved is not a violation of anything the
         # baseline established
         bas = bu.get('functions', {}).get(f['function'], {}).get('asserts')
@@ -589,13 +613,17 @@ def check_property(pid, tier, seed, replay_only=None):
         'undecided': undecided[:20],
         'verus_failures_overridden_by_complete_kani_proofs': overridden,
         'known_findings_reported': [k[0]['line'] for k in kf_printed if not k[0].get('shared')],
-        'hypotheses_from_known_findings_of_other_properties': sorted(set(k[0]['line'][:400] for k in kf_printed if k[0].get('shared'))),
+        'hypotheses_from_known_findings_of_other_properties': sorted(set(h for u in units if runs.get(u) is not None and runs[u].unit is not None
+                                                                      for h in getattr(runs[u].unit, 'finding_hypotheses', []))),
         'explanation': cfg.get('explanation', ''),
         'not_decided_here': cfg.get('not_decided', []),
         'repo': repo_state(),
     }
     ev = {'property_id': pid, 'tier': tier, 'seed': seed, 'level': level, 'coverage': cov,
-          'assumptions': cfg.get('assumptions', []) + ['every item of coverage.trusted_base'],
+          'assumptions': cfg.get('assumptions', []) + ['every item of coverage.trusted_base'] +
+                         ['hypothesis (a known finding of another property, not established by the code): ' + h
+                          for h in sorted(set(h for u in units if runs.get(u) is not None and runs[u].unit is not None
+                                              for h in getattr(runs[u].unit, 'finding_hypotheses', [])))],
           'wall_s': round(time.time() - t0, 2), 'violations': len(violations)}
     os.makedirs(os.path.join(VERIF, 'evidence'), exist_ok=True)
     json.dump(ev, open(os.path.join(VERIF, 'evidence', pid + '.json'), 'w'), indent=1)
@@ -655,7 +683,7 @@ def rebaseline():
         fns = {}
         for em in ur.unit.items:
             if em.mode == 'verify' and em.name not in failed:
-                fns[em.name] = {'loops': em.n_loops, 'clauses': len(em.clauses) + 1, 'loop_sig': em.loop_sig, 'callees': em.callees, 'asserts': em.src_asserts, 'sha': em.sha}
+                fns[em.name] = {'loops': em.n_loops, 'clauses': len(em.clauses) + 1, 'loop_sig': em.loop_sig, 'callees': em.callees, 'asserts': em.src_asserts, 'rules_sig': rules_sig(em), 'sha': em.sha}
         lemmas = sorted(set(k.split('::')[-1] for k, v in ur.res.functions.items() if v['success'] and k.split('::')[-1] not in failed))
         tp = run_unit(u, specs, outdir, 'tail')
         tail = sorted(probe_hits(tp)) if (tp.res is not None and not tp.gen_error and not tp.res.fatal) else []
